@@ -1,0 +1,211 @@
+//go:build verif
+
+// Contracts for the deductive verification harness in /verif (govc), module v2.
+// Comments only; compiled only with -tags verif and then contributes nothing.
+
+package iavl
+
+//@ func maxInt8(a, b) (r)
+//@   props C19
+//@   ensures r == ite(a > b, a, b)
+
+// ---------------------------------------------------------------- node.go: hashing — the same preimage as v1
+//
+// leaf:  sha256( V(0) V(1) V(version) B(key) B(sha256(value)) )
+// inner: sha256( V(height) V(size) V(version) B(hash(left)) B(hash(right)) )
+
+//@ func EncodeBytes(w, bz) (err)
+//@   props C19
+//@   requires w != nil
+//@   ensures [length-prefixed] err == nil ==> wstream[w] == appB(old(wstream[w]), ord(bz), len(bz))
+//@   modifies wstream[w]
+
+// ---------------------------------------------------------------- node.go: children, height, size, balance factor
+
+//@ func (*SqliteDb).getLeftNode(sql, node) (res, err)
+//@   assumed the cgo/SQLite boundary: loads the left child row and links it into node
+//@   ensures err == nil ==> res != nil && node.leftNode == res && fresh(res)
+//@   modifies node.leftNode
+//@   allocates Node BM
+//@ func (*SqliteDb).getRightNode(sql, node) (res, err)
+//@   assumed the cgo/SQLite boundary: loads the right child row and links it into node
+//@   ensures err == nil ==> res != nil && node.rightNode == res && fresh(res)
+//@   modifies node.rightNode
+//@   allocates Node BM
+
+//@ func (*Node).getLeftNode(node, t) (res, err)
+//@   props C19
+//@   requires node != nil && t != nil
+//@   ensures [cached] old(node.leftNode) != nil && node.subtreeHeight != 0 ==> err == nil && res == old(node.leftNode) && node.leftNode == old(node.leftNode)
+//@   ensures [linked] err == nil ==> res != nil && res == node.leftNode
+//@   ensures [leaf] node.subtreeHeight == 0 ==> err != nil
+//@   modifies node.leftNode
+
+//@ func (*Node).getRightNode(node, t) (res, err)
+//@   props C19
+//@   requires node != nil && t != nil
+//@   ensures [cached] old(node.rightNode) != nil && node.subtreeHeight != 0 ==> err == nil && res == old(node.rightNode) && node.rightNode == old(node.rightNode)
+//@   ensures [linked] err == nil ==> res != nil && res == node.rightNode
+//@   ensures [leaf] node.subtreeHeight == 0 ==> err != nil
+//@   modifies node.rightNode
+
+// stored height = max of the children's + 1, stored size = sum of the children's
+//@ func (*Node).calcHeightAndSize(node, t) (err)
+//@   props C19
+//@   requires node != nil && t != nil
+//@   macro inmem = old(node.leftNode != nil && node.rightNode != nil && allocated(node.leftNode) && allocated(node.rightNode) && node.leftNode != node && node.rightNode != node && node.leftNode.subtreeHeight < 127 && node.rightNode.subtreeHeight < 127)
+//@   ensures [children] err == nil ==> node.leftNode != nil && node.rightNode != nil
+//@   ensures [links-kept] err == nil ==> (old(node.leftNode) != nil ==> node.leftNode == old(node.leftNode)) && (old(node.rightNode) != nil ==> node.rightNode == old(node.rightNode))
+//@   ensures [height] err == nil && inmem ==> node.subtreeHeight == ite(node.leftNode.subtreeHeight > node.rightNode.subtreeHeight, node.leftNode.subtreeHeight, node.rightNode.subtreeHeight) + 1
+//@   ensures [size] err == nil && inmem ==> node.size == node.leftNode.size + node.rightNode.size || node.leftNode.size + node.rightNode.size > 9223372036854775807 || node.leftNode.size + node.rightNode.size < 0 - 9223372036854775808
+//@   modifies node.leftNode, node.rightNode, node.subtreeHeight, node.size
+
+//@ func (*Node).calcBalance(node, t) (b, err)
+//@   props C19
+//@   requires node != nil && t != nil
+//@   ensures [factor] err == nil ==> node.leftNode != nil && node.rightNode != nil && b == node.leftNode.subtreeHeight - node.rightNode.subtreeHeight
+//@   ensures [links-kept] err == nil ==> (old(node.leftNode) != nil ==> node.leftNode == old(node.leftNode)) && (old(node.rightNode) != nil ==> node.rightNode == old(node.rightNode))
+//@   modifies node.leftNode, node.rightNode
+
+//@ func (*Tree).addOrphan(tree, node)
+//@   summary
+//@ func (*Tree).mutateNode(tree, node)
+//@   summary
+
+// ---------------------------------------------------------------- node.go: rebalancing — the four documented cases, ties take the single rotation (as v1)
+//@ func (*Tree).balance(tree, node) (newSelf, err)
+//@   props C19
+//@   nosafety
+//@   requires tree != nil && node != nil
+//@   ensures [persisted-refused] old(node.hash) != nil ==> err != nil && newSelf == nil
+//@   callsite Tree).rotateRight@1 [left-left] arg1 == node && balance > 1 && lftBalance >= 0
+//@   callsite Tree).rotateLeft@1 [left-right-inner] balance > 1 && lftBalance < 0
+//@   callsite Tree).rotateRight@2 [left-right-outer] arg1 == node && balance > 1 && lftBalance < 0
+//@   callsite Tree).rotateLeft@2 [right-right] arg1 == node && balance < 0 - 1 && rightBalance <= 0
+//@   callsite Tree).rotateRight@3 [right-left-inner] arg1 == rightNode && balance < 0 - 1 && rightBalance > 0
+//@   callsite Tree).rotateLeft@3 [right-left-outer] arg1 == node && balance < 0 - 1 && rightBalance > 0
+//@   modifies *
+
+// rotate right lifts the left child: it becomes the parent of `node`, and its
+// former right child becomes node's left child; both stored heights/sizes are recomputed, node first
+//@ func (*Tree).rotateRight(tree, node) (res, err)
+//@   props C19
+//@   nosafety
+//@   requires tree != nil && node != nil
+//@   macro inmem = old(node.leftNode != nil && allocated(node.leftNode) && node.leftNode != node && node.leftNode.subtreeHeight != 0 && node.subtreeHeight != 0 && node.leftNode.rightNode != nil && allocated(node.leftNode.rightNode) && node.leftNode.rightNode != node && node.leftNode.rightNode != node.leftNode)
+//@   ensures [lifted] err == nil && inmem ==> res == old(node.leftNode) && res.rightNode == node && node.leftNode == old(node.leftNode.rightNode)
+//@   ensures [others-kept] err == nil && inmem && old(node.rightNode) != nil && old(node.leftNode.leftNode) != nil ==> node.rightNode == old(node.rightNode) && res.leftNode == old(node.leftNode.leftNode)
+//@   callsite Node).calcHeightAndSize@1 [demoted-first] arg0 == node
+//@   callsite Node).calcHeightAndSize@2 [lifted-second] arg0 == newNode
+//@   modifies *
+
+//@ func (*Tree).rotateLeft(tree, node) (res, err)
+//@   props C19
+//@   nosafety
+//@   requires tree != nil && node != nil
+//@   macro inmem = old(node.rightNode != nil && allocated(node.rightNode) && node.rightNode != node && node.rightNode.subtreeHeight != 0 && node.subtreeHeight != 0 && node.rightNode.leftNode != nil && allocated(node.rightNode.leftNode) && node.rightNode.leftNode != node && node.rightNode.leftNode != node.rightNode)
+//@   ensures [lifted] err == nil && inmem ==> res == old(node.rightNode) && res.leftNode == node && node.rightNode == old(node.rightNode.leftNode)
+//@   ensures [others-kept] err == nil && inmem && old(node.leftNode) != nil && old(node.rightNode.rightNode) != nil ==> node.leftNode == old(node.leftNode) && res.rightNode == old(node.rightNode.rightNode)
+//@   callsite Node).calcHeightAndSize@1 [demoted-first] arg0 == node
+//@   callsite Node).calcHeightAndSize@2 [lifted-second] arg0 == newNode
+//@   modifies *
+
+// node keys are values: reading their parts writes nothing
+//@ func (NodeKey).Version(nk) (v)
+//@   props C19
+//@ func (NodeKey).Sequence(nk) (s)
+//@   props C19
+
+// writeHashBytes: what goes into a node's hash (compare /repo/zz_verif_contracts.go, v1)
+//@ func (*Node).writeHashBytes(node, w) (err)
+//@   props C19
+//@   requires node != nil && w != nil && (node.subtreeHeight != 0 ==> node.leftNode != nil && node.rightNode != nil)
+//@   ensures [leaf] err == nil && node.subtreeHeight == 0 ==> exists(ver, wstream[w] == appB(appB(appV(appV(appV(old(wstream[w]), node.subtreeHeight), node.size), ver), ord(node.key), len(node.key)), shaS(appRaw(SNil, ord(node.value), len(node.value))), 32))
+//@   ensures [inner] err == nil && node.subtreeHeight != 0 ==> node.leftNode != nil && node.rightNode != nil && exists(ver, wstream[w] == appB(appB(appV(appV(appV(old(wstream[w]), node.subtreeHeight), node.size), ver), ord(node.leftNode.hash), len(node.leftNode.hash)), ord(node.rightNode.hash), len(node.rightNode.hash)))
+//@   modifies wstream[w]
+
+// ---------------------------------------------------------------- tree.go: insertion — where a new leaf goes and when the path is rebalanced (the same algorithm as v1)
+
+//@ func (*NodePool).Get(np) (n)
+//@   assumed a pooled node object nobody else holds (sync.Pool)
+//@   ensures n != nil && fresh(n)
+//@   allocates Node
+//@ func (*Tree).NewLeafNode(tree, key, value) (leaf)
+//@   assumed leaf construction (hashing, pool, metrics) is below this contract
+//@   ensures leaf != nil && fresh(leaf) && leaf.key == key && leaf.subtreeHeight == 0 && leaf.size == 1 && leaf.leftNode == nil && leaf.rightNode == nil
+//@   modifies Tree.*[*]
+//@   allocates Node BM
+//@ func (*Tree).nextNodeKey(tree) (nk)
+//@   summary
+//@ func (*Node).sizeBytes(node) (n)
+//@   summary
+//@ func (*Node)._hash(node) (h)
+//@   assumed pooled hasher plumbing (sync.Pool of hash.Hash) is not under contract; what is hashed is writeHashBytes (proved)
+//@   ensures old(node.hash) != nil ==> h == old(node.hash) && node.hash == old(node.hash)
+//@   modifies node.hash
+// left/right: the child, loaded if need be (a load failure panics: not an error path of these helpers)
+//@ func (*Node).left(node, t) (l)
+//@   props C19
+//@   nosafety
+//@   requires node != nil && t != nil
+//@   ensures [child] l != nil && l == node.leftNode && (old(node.leftNode) != nil ==> l == old(node.leftNode))
+//@   modifies node.leftNode
+//@ func (*Node).right(node, t) (r)
+//@   props C19
+//@   nosafety
+//@   requires node != nil && t != nil
+//@   ensures [child] r != nil && r == node.rightNode && (old(node.rightNode) != nil ==> r == old(node.rightNode))
+//@   modifies node.rightNode
+
+//@ func (*Tree).recursiveSet(tree, node, key, value) (newSelf, updated, err)
+//@   props C19
+//@   nosafety
+//@   requires tree != nil && node != nil
+//@   macro lt = err == nil && old(node.subtreeHeight) == 0 && old(ord(key)) < old(ord(node.key))
+//@   macro gt = err == nil && old(node.subtreeHeight) == 0 && old(ord(key)) > old(ord(node.key))
+//@   ensures [smaller-parent] lt ==> !updated && newSelf != nil && newSelf != node && newSelf.subtreeHeight == 1 && newSelf.size == 2 && newSelf.key == old(node.key)
+//@   ensures [smaller-children] lt ==> newSelf.rightNode == node && newSelf.leftNode != nil && newSelf.leftNode != node && newSelf.leftNode.key == key
+//@   ensures [greater-parent] gt ==> !updated && newSelf != nil && newSelf != node && newSelf.subtreeHeight == 1 && newSelf.size == 2 && newSelf.key == key
+//@   ensures [greater-children] gt ==> newSelf.leftNode == node && newSelf.rightNode != nil && newSelf.rightNode != node && newSelf.rightNode.key == key
+//@   ensures [same-key] err == nil && old(node.subtreeHeight) == 0 && old(ord(key)) == old(ord(node.key)) ==> updated && newSelf == node
+//@   callsite Tree).recursiveSet@1 [descend-left] ord(key) < ord(node.key)
+//@   callsite Tree).recursiveSet@2 [descend-right] ord(key) >= ord(node.key)
+//@   callsite Node).calcHeightAndSize [recompute-after-insert] arg0 == node && !updated
+//@   callsite Tree).balance [rebalance-after-insert] arg1 == node && !updated
+//@   modifies *
+
+// ---------------------------------------------------------------- iterator.go: one step of the v2 tree iterator (same domain semantics as v1: [start, end), end included on request)
+//@ func (*TreeIterator).stepAscend(i)
+//@   props C19
+//@   nosafety
+//@   requires i != nil && i.valid
+//@   loop 1 invariant i.valid && i.started == old(i.started) && i.start == old(i.start) && i.end == old(i.end) && i.inclusive == old(i.inclusive) && i.tree == old(i.tree)
+//@   ensures [end-respected] i.valid ==> i.end == nil || ite(i.inclusive, ord(i.key) <= ord(i.end), ord(i.key) < ord(i.end))
+//@   ensures [start-respected] i.valid && !old(i.started) ==> ord(i.key) >= ord(i.start)
+//@   callsite TreeIterator).push@2 [left-only-if-start-below-key] arg1 == left && ord(i.start) < ord(n.key)
+//@   callsite TreeIterator).push@1 [right-under-left] arg1 == right
+//@   callsite TreeIterator).push@3 [right-alone] arg1 == right && ord(i.start) >= ord(n.key)
+//@   modifies *
+
+//@ func (*TreeIterator).stepDescend(i)
+//@   props C19
+//@   nosafety
+//@   requires i != nil && i.valid
+//@   loop 1 invariant i.valid && i.started == old(i.started) && i.start == old(i.start) && i.end == old(i.end) && i.inclusive == old(i.inclusive) && i.tree == old(i.tree)
+//@   ensures [start-respected] i.valid ==> i.start == nil || ord(i.key) >= ord(i.start)
+//@   ensures [end-respected] i.valid && !old(i.started) && i.end != nil && !i.inclusive ==> ord(i.key) < ord(i.end)
+//@   callsite TreeIterator).push@2 [right-only-if-key-not-above-end] arg1 == right && (i.end == nil || ord(n.key) <= ord(i.end))
+//@   callsite TreeIterator).push@1 [left-under-right] arg1 == left
+//@   callsite TreeIterator).push@3 [left-alone] arg1 == left && i.end != nil && ord(n.key) > ord(i.end)
+//@   modifies *
+
+// Next: an invalid iterator stays invalid; an exhausted stack ends the iteration; direction selects the step
+//@ func (*TreeIterator).Next(i)
+//@   props C19
+//@   nosafety
+//@   requires i != nil
+//@   ensures [latch] !old(i.valid) ==> !i.valid
+//@   ensures [exhausted] old(i.valid) && old(len(i.stack)) == 0 ==> !i.valid
+//@   callsite TreeIterator).stepAscend [forward] i.ascending && i.valid && len(i.stack) > 0
+//@   callsite TreeIterator).stepDescend [backward] !i.ascending && i.valid && len(i.stack) > 0
+//@   modifies *
